@@ -231,7 +231,7 @@ QUICK = [("single", 1), ("exchange2", 2), ("ring", 2), ("ring", 3), ("star", 2),
          ("multi_send", 2), ("forward_only", 3), ("outputs_are_inputs", 2), ("materialized", 2), ("two_way_dependent", 2),
          ("ring_2rounds", 2), ("late_use_of_early_recv", 2), ("diamond", 3), ("three_rounds", 2),
          ("three_rounds_one_way", 2), ("pingpong4", 2)]
-THOROUGH = QUICK + [("pingpong5", 2), ("star", 3), ("ring_2rounds", 3), ("chain", 4), ("ring", 4), ("star", 4)]
+THOROUGH = QUICK + [("pingpong5", 2), ("star", 3), ("ring_2rounds", 3), ("chain", 4), ("ring", 4)]      # (star/4: > 4000 schedules, not confirmed within 25 min -- left out, stated in "outside")
 
 
 # ---------------------------------------------------------------------------
@@ -467,7 +467,7 @@ def jobs(tier: str, seed: int):
         "bounds": {"patterns": sorted({p for p, _ in (THOROUGH if th else QUICK)}), "ranks": "1..3 (quick) / ..4 (thorough)",
                    "communication ops": "<= 6", "schedules": "all, for these instances (per-path exploration)"},
         "outside": ["real MPI progress semantics beyond Waitsome's contract", "patterns with more schedules than the "
-                    "budget allows (not claimed)", "generated code for the parts (parts are evaluated with eval_pytato; "
+                    "budget allows (not claimed; star with 4 ranks did not finish in 25 minutes and is left out)", "generated code for the parts (parts are evaluated with eval_pytato; "
                     "kernels are C01's subject)"],
         "stubs": ["mpi4py faked in sys.modules (collectives over threads for partitioning; Irecv/Isend/Waitsome controlled "
                   "by the schedule)", "pyopencl.array.to_device = identity on the delivered payload",
